@@ -89,6 +89,35 @@ def correspondence(ctx, built, n):
                        json.dumps(kept[bi])[:3000])
 
 
+def element_fails(case):
+    """pose-frame on an exact case: the vectorised output against single static evaluations of every
+    leaf at every path index and pixel (harness/level2.oracle_element)"""
+    try:
+        got = level2.impl_run(case)
+        exp = level2.oracle_element(case)
+    except Exception as e:   # pylint: disable=broad-except
+        return f"raised {type(e).__name__}: {e}"
+    exp = np.rint(np.array(exp, dtype=float)).astype(int).tolist() if not isinstance(exp, list) else \
+        [[[[[int(round(x)) for x in v] for v in px] for px in row] for row in blk] for blk in exp]
+    return None if got == exp else "vectorised output differs from the pose-by-pose single evaluations"
+
+
+def element_search(ctx, n):
+    for _ in range(n):
+        case = level2.g_case(ctx.rng, max_src=3, max_sens=2, maxlen=3)
+        ctx.bump("exact:element-oracle")
+        if element_fails(case) is None:
+            continue
+        def fails(srcs):
+            return bool(srcs) and not any("dup" in s for s in srcs) and element_fails(dict(case, sources=srcs)) is not None
+        small = dict(case, sources=shrink_list(level2.resolve(case["sources"]), fails, max_steps=30))
+        if element_fails(small) is None:
+            small = case
+        sig = stub_signature(dict(small, obs=False)).split("/")[1]
+        ctx.impl_fail("pose-frame/" + sig, element_fails(small) + " (stub sources, exact)",
+                      {"kind": "exact-element", "case": small})
+
+
 # ------------------------------------------------------------------ float search (real sources)
 TOL = 1e-9        # relative to the field scale of the compared arrays
 NOISE_FACTOR = 1000.0   # ... or this many times the evaluation's own sensitivity to rounding-level changes
@@ -172,6 +201,63 @@ def acceptable(dentries, dobs, gq, t, field):
             f"field scale; rounding sensitivity of this evaluation {nf:.1e}) from the rotated / unchanged field")
 
 
+def frame_dev(dentry, pts, field):
+    """second sentence of the property: pose (p_m, R_m) = local frame placed in the global frame.
+    Deviation of the field of a posed entry from R_m . F_local(R_m^-1 (o - p_m)), F_local taken from the
+    same source at the default pose (origin, unit orientation); collections: sum over their leaves."""
+    f = magpy.getB if field == "B" else magpy.getH
+    pts = np.array(pts, dtype=float)
+    got = f(l2b.load_obj(dentry), pts, squeeze=False)[0, :, 0]          # (M, n, 3)
+    M = got.shape[0]
+    exp = np.zeros_like(got)
+
+    def leaves(d):
+        if d["class"] == "Collection":
+            return [x for c in d["children"] for x in leaves(c)]
+        return [] if d["class"] == "Sensor" else [d]
+    for d in leaves(dentry):
+        base = l2b.load_obj(dict(d, position=[[0.0, 0.0, 0.0]], quat=[[0.0, 0.0, 0.0, 1.0]]))
+        for m in range(M):
+            mm = min(m, len(d["position"]) - 1)
+            rm = R.from_quat(np.array(d["quat"][mm], dtype=float))
+            loc = rm.inv().apply(pts - np.array(d["position"][mm], dtype=float))
+            exp[m] += rm.apply(f(base, loc, squeeze=False)[0, 0, 0].reshape(-1, 3))
+    return l2b.rel_dev(exp, got)
+
+
+def frame_acceptable(dentry, pts, field):
+    try:
+        dev = frame_dev(dentry, pts, field)
+    except Exception as e:   # pylint: disable=broad-except
+        return f"raised {type(e).__name__}: {e}"
+    if dev <= TOL:
+        return None
+    try:
+        nf = noise_floor([dentry], {"kind": "array", "points": pts}, field)
+    except Exception:   # pylint: disable=broad-except
+        nf = 0.0
+    if dev <= NOISE_FACTOR * nf:
+        return None
+    return (f"{field} of the posed source deviates by {dev:.2e} (relative; rounding sensitivity {nf:.1e}) from "
+            "R.F_local(R^-1(o-p)) with F_local taken at the default pose")
+
+
+def frame_search_one(ctx, dentries, pts, field):
+    for d in dentries:
+        ctx.bump("float:pose-frame")
+        if frame_acceptable(d, pts, field) is None:
+            continue
+        small = d
+        while small["class"] == "Collection":
+            nxt = next((c for c in small["children"] if c["class"] != "Sensor" and frame_acceptable(c, pts, field)), None)
+            if nxt is None:
+                break
+            small = nxt
+        pk = "static" if small["class"] != "Collection" and len(small["position"]) == 1 else "path"
+        ctx.impl_fail(f"pose-frame/{leaf_class(small)}:{pk}", frame_acceptable(small, pts, field),
+                      {"kind": "float-frame", "entry": small, "points": pts, "field": field})
+
+
 def leaf_class(d):
     if d["class"] == "Collection":
         return "Collection[" + ",".join(leaf_class(c) for c in d["children"] if c["class"] != "Sensor") + "]"
@@ -229,6 +315,8 @@ def float_search(ctx, n):
         devs, err = float_dev(dentries, dobs, gq, t, field)
         form = "covariant-observers" if dobs["kind"] == "array" else "invariant-sensors"
         ctx.case(("float", form, field, tuple(desc), repr(gq), repr(t)), True)
+        if dobs["kind"] == "array":
+            frame_search_one(ctx, dentries, dobs["points"], field)
         ctx.bump("float:" + form)
         for k in desc:
             ctx.bump("float-class:" + k.split("[")[0])
@@ -272,6 +360,7 @@ def run(ctx):
     run_guarded(ctx, lambda: correspondence(ctx, built, ctx.n(240, 3000)), "C03 correspondence")
     big = bool(ctx.broken)
     run_guarded(ctx, lambda: float_search(ctx, ctx.n(250, 6000) * (4 if big else 1)), "C03 float search")
+    run_guarded(ctx, lambda: element_search(ctx, ctx.n(40, 800) * (8 if big else 1)), "C03 exact element search")
     if big:
         run_guarded(ctx, lambda: correspondence(ctx, False, ctx.n(1500, 6000)), "C03 exact search")
 
@@ -281,6 +370,12 @@ def replay(ctx, obj):
     path = obj.get("how_to_rerun", "").split()[-1] if obj.get("how_to_rerun") else "given"
     if rp.get("kind") == "exact":
         res = exact_fails(rp["case"])
+        print("replay:", "property holds on this case" if res is None else "FAILS: " + res)
+    elif rp.get("kind") == "float-frame":
+        res = frame_acceptable(rp["entry"], rp["points"], rp["field"])
+        print("replay:", "property holds on this setup" if res is None else "FAILS: " + res)
+    elif rp.get("kind") == "exact-element":
+        res = element_fails(rp["case"])
         print("replay:", "property holds on this case" if res is None else "FAILS: " + res)
     elif rp.get("kind") == "float":
         res = acceptable(rp["entries"], rp["observers"], rp["g_quat"], rp["t"], rp["field"])
